@@ -20,6 +20,7 @@ import (
 	"context"
 	"fmt"
 	"io"
+	"strings"
 
 	"github.com/containerd/containerd/v2/core/content"
 	"github.com/containerd/containerd/v2/core/images"
@@ -122,6 +123,11 @@ func LayerConvertFunc(opts ...estargz.Option) converter.ConvertFunc {
 			} else {
 				newDesc.MediaType += "+gzip"
 			}
+		} else if strings.HasSuffix(newDesc.MediaType, "+zstd") {
+			// the converted blob is gzip (eStargz) whatever the compression of the source was
+			newDesc.MediaType = strings.TrimSuffix(newDesc.MediaType, "+zstd") + "+gzip"
+		} else if strings.HasSuffix(newDesc.MediaType, ".zstd") {
+			newDesc.MediaType = strings.TrimSuffix(newDesc.MediaType, ".zstd") + ".gzip"
 		}
 		newDesc.Digest = w.Digest()
 		newDesc.Size = n
